@@ -325,6 +325,9 @@ def finish(mod, tier, seed, tasks, results, t0, only_partial=False):
 
   rc = 0
   replay_paths = []
+  if os.environ.get('VERIF_DUMP_VIOLATIONS') and new_violations:
+    with open(os.environ['VERIF_DUMP_VIOLATIONS'], 'w') as f:
+      json.dump([{'key': v['key'], 'what': v['what']} for v in new_violations], f, indent=1)
   if new_violations:
     rc = 1
     byfn = collections.Counter(v['case']['fn'] + ':' + str(v['case']['args'].get('kind', ''))
